@@ -107,7 +107,8 @@ Lemma opt_cto_keeps tf tr : keeps tf tr (opt_cto tf tr).
 Proof.
   unfold opt_cto.
   destruct (has_cto tr) eqn:Hd; cbn [andb]; [|apply keeps_refl].
-  destruct (forallb _ _) eqn:Hc; [|apply keeps_refl].
+  destruct (forallb _ _) eqn:Hc; cbn [andb]; [|apply keeps_refl].
+  destruct (_ || _); [|apply keeps_refl].
   rewrite forallb_forall in Hc.
   split; [cbn [snd]; bits; reflexivity|].
   intros tx. cbn [fst snd].
@@ -263,7 +264,7 @@ Qed.
 
 Lemma opt_cto_frame tf tr : frame tf tr (opt_cto tf tr).
 Proof.
-  unfold opt_cto. destruct (has_cto tr && _); [|apply frame_refl]. unfold frame. cbn [fst snd]. bits. repeat split.
+  unfold opt_cto. destruct (_ && _ && _); [|apply frame_refl]. unfold frame. cbn [fst snd]. bits. repeat split.
 Qed.
 
 Lemma optimize_frame b tf tr tf' tr' : optimize_gen b tf tr = Ok (tf', tr') -> frame tf tr (tf', tr').
@@ -278,4 +279,56 @@ Proof.
     apply (frame_trans tf tr (tf3, tr3)); [|exact K4].
     apply (frame_trans tf tr (tf2, tr2)); [|exact K3].
     apply (frame_trans tf tr (tf1, tr1)); [exact K1|exact K2].
+Qed.
+
+(* ------------------------------------------------------------------ the decoder's guard (fix 6c7a902, C05-F7) *)
+(* DecodeTrun / DecodeTrunSR accept the count: at most MAX_BARE samples, or some per-sample field present *)
+Definition bare_ok (t : trun) : bool :=
+  (N.of_nat (length (tr_samples t)) <=? MAX_BARE) || other_field t || has_cto t.
+
+Lemma opt_dur_cto tf tr : has_cto (snd (opt_dur tf tr)) = has_cto tr.
+Proof.
+  unfold opt_dur. destruct (tr_samples tr); [reflexivity|]. destruct (has_dur tr && _); [|reflexivity]. cbn [snd]. bits. reflexivity.
+Qed.
+
+Lemma opt_size_cto tf tr : has_cto (snd (opt_size tf tr)) = has_cto tr.
+Proof.
+  unfold opt_size. destruct (tr_samples tr); [reflexivity|]. destruct (has_size tr && _); [|reflexivity]. cbn [snd]. bits. reflexivity.
+Qed.
+
+Lemma opt_flags_cto b tf tr : has_cto (snd (opt_flags_gen b tf tr)) = has_cto tr.
+Proof.
+  unfold opt_flags_gen. destruct (tr_samples tr) as [|s0 [|s1 l]]; try reflexivity.
+  destruct (has_sflags tr && _); [|reflexivity].
+  destruct (negb (s_flags s0 =? s_flags s1)); [|destruct b]; cbn [snd]; bits; reflexivity.
+Qed.
+
+(* the repaired fourth block never leaves a trun that had the composition-offset field bare *)
+Lemma opt_cto_bare tf tr : has_cto tr = true -> bare_ok (snd (opt_cto tf tr)) = true.
+Proof.
+  intros Hc. unfold opt_cto. rewrite Hc. cbn [andb].
+  destruct (forallb _ _); cbn [andb snd]; [|unfold bare_ok; rewrite Hc; apply orb_true_r].
+  destruct (_ || _) eqn:E; cbn [snd]; [|unfold bare_ok; rewrite Hc; apply orb_true_r].
+  unfold bare_ok. replace (other_field (tr_clear tr B_CTO)) with (other_field tr) by (unfold other_field; bits; reflexivity).
+  change (tr_samples (tr_clear tr B_CTO)) with (tr_samples tr). rewrite E. reflexivity.
+Qed.
+
+(* OptimizeTfhdTrun on a trun that has the composition-offset field (every trun made by CreateTrun) *)
+Lemma optimize_bare tf tr tf' tr' :
+  has_cto tr = true -> bare_ok tr = true -> optimize tf tr = Ok (tf', tr') -> bare_ok tr' = true.
+Proof.
+  intros Hc Hb. unfold optimize, FIXED_FSF, optimize_gen. destruct (tr_samples tr) as [|s0 [|s1 l]] eqn:E; [discriminate| |].
+  - intros [= <- <-]. exact Hb.
+  - pose proof (opt_dur_cto tf tr) as C1. destruct (opt_dur tf tr) as [tf1 tr1]. cbn [snd] in C1.
+    pose proof (opt_size_cto tf1 tr1) as C2. destruct (opt_size tf1 tr1) as [tf2 tr2]. cbn [snd] in C2.
+    pose proof (opt_flags_cto true tf2 tr2) as C3. destruct (opt_flags_gen true tf2 tr2) as [tf3 tr3]. cbn [snd] in C3.
+    intros [= H]. pose proof (opt_cto_bare tf3 tr3) as B. rewrite H in B. cbn [snd] in B. apply B. congruence.
+Qed.
+
+(* the text before the fix left such a trun bare *)
+Lemma optimize_f7_bare_refuted : exists tf tr tf' tr',
+  all_present tr = true /\ optimize_f7 tf tr = Ok (tf', tr') /\ bare_ok tr' = false.
+Proof.
+  exists (create_tfhd 1), (mkTrun 1 3841 0 0 (repeat (mkSample 16842752 10 1 0) 1025) 0).
+  eexists; eexists. split; [vm_compute; reflexivity|]. split; [vm_compute; reflexivity|]. vm_compute. reflexivity.
 Qed.
